@@ -66,7 +66,7 @@ def expectations(tid, name):
 
 def run(ctx):
     ctx.extract()
-    lean_ok = ctx.build_lean(["GomlVerif.Props.C19"])
+    lean_ok = ctx.build_lean(["GomlVerif.Props.C19", "GomlVerif.Props.C19Compact"])
     if not ctx.build_harness():
         return ctx.finish("proof", {"evaluations": 0, "distinct_nontrivial": 0}, [], "lake build")
     try:
@@ -326,6 +326,65 @@ def run(ctx):
         if len(samples) < 7 and variant == "orig" and family in ("tuple-grouping", "generic-application-vs-underscore-name"):
             samples.append({"instance_case": pid, "instance_table": tables, "stdout": vlib.unesc(go[1])[:160]})
 
+    # ------------------------------------------------------------------ (E) instance-name universe (harness/src/c19univ.rs)
+    # every type of an enumerated universe instantiates Opt / Box / none in a program of its own; the names are the
+    # REAL ones (mono_enums / mono_structs keys, Mono function names, real go_ident of them).  Model-free oracle:
+    # as many distinct names as distinct types, per kind of name — the harness turns every shared name into a pair
+    # program of the hunt above (family `universe`); here the count is re-derived independently, so a shared name
+    # without a reported pair program is a broken tie, and panics / malformed instance tables are reported.
+    upath = os.path.join(ctx.run_dir, "c19inst.univ.tsv")
+    urows = vlib.read_tsv(upath) if os.path.exists(upath) else []
+    univ = [r for r in urows if len(r) >= 10 and r[1] == "UNIV"]
+    univ_summary = next((r[1] for r in urows if r[0] == "#UNIV"), "")
+    univ_names = next((r[1] for r in urows if r[0] == "#UNIVNAMES"), "")
+    n_univ_shared = 0
+    univ_shapes = collections.Counter(r[2] for r in univ)
+    for col, what in ((5, "enum-instance"), (6, "struct-instance"), (7, "fn-instance"), (8, "go-type"), (9, "go-fn")):
+        groups = collections.defaultdict(list)
+        for r in univ:
+            groups[r[col]].append(r[3])
+        shared = {k: v for k, v in groups.items() if len(set(v)) > 1}
+        n_univ_shared += len(shared)
+        if shared and not any(pid.startswith("inst/universe/") for pid in iprogs):
+            k, v = sorted(shared.items())[0]
+            ctx.broken_ties.append(("instance universe", f"{len(shared)} {what} names are shared by distinct types (e.g. {k!r}: {v[:2]}) but no pair program was emitted"))
+    for r in urows:
+        if len(r) >= 6 and r[1] == "UNIVPANIC":
+            ctx.report({"oracle": "instance-universe", "kind": "compiler-panic", "shape": r[2]},
+                       f"instantiating Opt/Box/none at `{vlib.unesc(r[3])}` alone panics the compiler: {vlib.unesc(r[4])[:140]}",
+                       {"type": vlib.unesc(r[3]), "outcome": vlib.unesc(r[4])[:400], "src": vlib.unesc(r[5])})
+        elif len(r) >= 6 and r[1] == "UNIVBAD":
+            ctx.report({"oracle": "instance-universe", "kind": "instance-table-shape", "shape": r[2]},
+                       f"one request per base at `{vlib.unesc(r[3])}`: {vlib.unesc(r[4])[:200]}",
+                       {"type": vlib.unesc(r[3]), "detail": vlib.unesc(r[4])[:400], "src": vlib.unesc(r[5])})
+    if ok and not univ:
+        ctx.broken_ties.append(("instance universe", "gv c19inst produced no UNIV rows"))
+    # tie: the model's monoTypeName / specNameFor (+ goIdent) predict the real names of every universe type
+    n_univ_model = n_univ_model_ok = 0
+    if univ and have_model:
+        ulines = []
+        for r in univ:
+            ulines.append(f"{r[0]}t\t(monotygo Opt ({r[4]}))")
+            ulines.append(f"{r[0]}f\t(specgo none ((T {r[4]})))")
+        um = ctx.model("c19", ulines)
+        first_bad = None
+        for r in univ:
+            for suffix, want in (("t", r[8]), ("f", r[9])):
+                got = um.get(r[0] + suffix)
+                if got is None:
+                    continue
+                n_univ_model += 1
+                if got[:1] == [vlib.unesc(want)] or got[:1] == [want]:
+                    n_univ_model_ok += 1
+                elif first_bad is None:
+                    first_bad = {"type": vlib.unesc(r[3]), "model": got[:1], "impl": want}
+        if first_bad is not None:
+            ctx.broken_ties.append(("model≠impl: instance name over the universe",
+                                    f"{n_univ_model - n_univ_model_ok} names, first: {json.dumps(first_bad, ensure_ascii=False)}"))
+    if len(samples) < 12 and univ:
+        r = next((r for r in univ if r[2] == "func" and "(" in r[3][1:]), univ[-1])
+        samples.append({"universe_type": vlib.unesc(r[3]), "enum_instance": r[5], "struct_instance": r[6], "fn_instance": r[7], "go_type": r[8], "go_fn": r[9]})
+
     # ------------------------------------------------------------------ (D) identifier-level collisions
     ident_meta = {r[0]: r for r in irows if len(r) >= 13 and r[1] == "IDENT"}
     n_id = n_id_ok = n_id_unwritable = 0
@@ -421,13 +480,17 @@ def run(ctx):
     ctx.violations.sort(key=lambda v: len(v[2].get("src", "")))
 
     cov = {
-        "evaluations": len(cases) + len(rows) + len(corpus) + n_inst + n_id,
-        "distinct_nontrivial": len(distinct) + n_prog_ok + n_inst_ok + n_id_ok,
+        "evaluations": len(cases) + len(rows) + len(corpus) + n_inst + n_id + len(univ),
+        "distinct_nontrivial": len(distinct) + n_prog_ok + n_inst_ok + n_id_ok + sum(1 for r in univ if r[2] != "prim"),
         "instance_collision_hunt": {"programs": n_inst, "by_family": dict(inst_fam), "programs_all_oracles_clean": n_inst_ok,
                                     "instance_names_read_from_real_mono_tables": n_inst_names,
                                     "identifier_pairs": {"programs": n_id, "accepted_and_clean": n_id_ok, "not_writable_or_rejected": n_id_unwritable,
                                                          "accepted_by_item_kind": dict(id_kinds), "accepted_by_pattern": dict(id_patterns)},
                                     "renamed_variants": n_ren, "renamed_variants_same_outcome": n_ren_ok, "generator": ifeats},
+        "instance_name_universe": {"types_instantiated": len(univ), "by_outer_constructor": dict(univ_shapes),
+                                   "names_shared_by_distinct_types": n_univ_shared,
+                                   "model_predictions_checked": n_univ_model, "model_predictions_equal": n_univ_model_ok,
+                                   "harness_summary": univ_summary, "derived_adversarial_names_sample": univ_names[:600]},
         "rule": "encoder cases: distinct inputs, non-trivial = identifier that takes the escaping branch or any type (all seven type "
                 "encoders are compared per type); programs: accepted by the real pipeline (one template × one adversarial name each)",
         "input_distribution": stats,
